@@ -758,10 +758,11 @@ Lemma none_detach : forall t p, n_ty t = TNone -> m_detach t p = None.
 Proof. intros t [|s r] H; [reflexivity|]. cbn [m_detach]. rewrite none_child_pos; auto. Qed.
 Lemma none_find : forall t p, n_ty t = TNone -> p <> [] -> m_find t p = None.
 Proof. intros t [|s r] H N; [contradiction|]. cbn [m_find]. rewrite none_child_pos; auto. Qed.
-Lemma none_put : forall fo k t p v, n_ty t = TNone -> match m_put fo k t p v with Some (r, _) => r <> RcOk | None => True end.
+Lemma none_put : forall fo k t p v, n_ty t = TNone ->
+  match m_put fo k t p v with Some (r, t') => r <> RcOk /\ t' = t | None => True end.
 Proof.
-  intros fo k t [|s [|s2 r]] v H; cbn [m_put]; try discriminate.
-  - unfold put_here. rewrite H. discriminate.
+  intros fo k t [|s [|s2 r]] v H; cbn [m_put]; try (split; [discriminate | reflexivity]).
+  - unfold put_here. rewrite H. split; [discriminate | reflexivity].
   - rewrite none_child_pos; auto.
 Qed.
 
@@ -769,7 +770,7 @@ Qed.
 Definition op_post (fo : fops) (t : node) (o : pop) : Prop :=
   match rfc_op lenient (f_eq fo) (doc_val t) (sop_of o) with
   | Some d' => fst (apply_op fo t o) = RcOk /\ doc_val (snd (apply_op fo t o)) = d' /\ inv (snd (apply_op fo t o))
-  | None => fst (apply_op fo t o) <> RcOk
+  | None => fst (apply_op fo t o) <> RcOk /\ inv (snd (apply_op fo t o))
   end.
 
 Lemma ty_none_dec : forall t, n_ty t = TNone \/ n_ty t <> TNone.
@@ -786,7 +787,7 @@ Lemma poc_spec : forall fo k v t p, op_eqb k OIncrement = false -> op_eqb k OAdd
   match s_add lenient (val t) p (val v) with
   | Some d' => fst (put_or_create fo k t p v) = RcOk /\ doc_val (snd (put_or_create fo k t p v)) = Some d' /\
                inv (snd (put_or_create fo k t p v))
-  | None => fst (put_or_create fo k t p v) <> RcOk
+  | None => fst (put_or_create fo k t p v) <> RcOk /\ inv (snd (put_or_create fo k t p v))
   end.
 Proof.
   intros fo k v t p K1 K2 G H T NE.
@@ -796,8 +797,18 @@ Proof.
   - destruct P as [I1 [I2 [I3 [I4 I5]]]]. cbn [fst snd].
     destruct (rc_ok r) eqn:R; rewrite I5.
     + split; [apply rc_ok_eq; exact R|]. split; [apply doc_val_good; congruence | exact I1].
-    + apply rc_ok_neq. exact R.
-  - rewrite P. cbn [fst]. discriminate.
+    + split; [apply rc_ok_neq; exact R | exact I1].
+  - rewrite P. cbn [fst snd]. split; [discriminate | exact H].
+Qed.
+
+Lemma poc_none : forall fo k v t p, op_eqb k OAddCreate = false -> n_ty t = TNone -> inv t ->
+  fst (put_or_create fo k t p v) <> RcOk /\ inv (snd (put_or_create fo k t p v)).
+Proof.
+  intros fo k v t p K T H. unfold put_or_create. rewrite K.
+  pose proof (none_put fo k t p v T) as N.
+  destruct (m_put fo k t p v) as [[r n']|]; cbn [fst snd].
+  - destruct N as [N1 N2]. subst n'. auto.
+  - split; [discriminate | exact H].
 Qed.
 
 Lemma apply_remove_eq : forall fo t o, p_op o = ORemove ->
@@ -817,12 +828,12 @@ Proof.
   destruct (is_root (p_path o)) eqn:R.
   - cbn [fst snd]. repeat split; auto; constructor.
   - destruct (ty_none_dec t) as [T|T].
-    + rewrite (doc_val_none t T), (none_detach t _ T). cbn [fst]. discriminate.
+    + rewrite (doc_val_none t T), (none_detach t _ T). cbn [fst snd]. split; [discriminate | auto].
     + rewrite (doc_val_good t T). pose proof (detach_spec (p_path o) t H) as D.
       destruct (m_detach t (p_path o)) as [[t' d]|].
       * destruct D as [D1 [D2 [D3 _]]]. rewrite D1. cbn [option_map fst snd]. repeat split; auto.
         apply doc_val_good. congruence.
-      * rewrite D. cbn [option_map fst]. discriminate.
+      * rewrite D. cbn [option_map fst snd]. split; [discriminate | auto].
 Qed.
 
 Lemma apply_add_eq : forall fo t o, p_op o = OAdd ->
@@ -841,13 +852,11 @@ Proof.
   intros fo t o K H G. unfold op_post. rewrite (apply_add_eq fo t o K).
   unfold rfc_op, sop_of. cbn [s_op s_path s_val s_from]. rewrite K. cbn [sopk_of]. rewrite <- is_root_spec.
   unfold op_good in G. destruct (p_val o) as [v|]; cbn [option_map].
-  2:{ destruct (is_root (p_path o)); cbn [fst]; discriminate. }
+  2:{ destruct (is_root (p_path o)); cbn [fst snd]; split; try discriminate; auto. }
   specialize (G v eq_refl). destruct (is_root (p_path o)) eqn:R.
   - cbn [fst snd]. destruct G as [G1 G2]. repeat split; auto. apply doc_val_good. exact G2.
   - destruct (ty_none_dec t) as [T|T].
-    + rewrite (doc_val_none t T). unfold put_or_create. change (op_eqb OAdd OAddCreate) with false.
-      pose proof (none_put fo OAdd t (p_path o) v T) as N.
-      destruct (m_put fo OAdd t (p_path o) v) as [[r n']|]; cbn [fst]; [exact N | discriminate].
+    + rewrite (doc_val_none t T). apply poc_none; auto.
     + rewrite (doc_val_good t T).
       pose proof (poc_spec fo OAdd v t (p_path o) eq_refl eq_refl G H T (not_root_nonempty _ R)) as P.
       destruct (s_add lenient (val t) (p_path o) (val v)); cbn [option_map]; exact P.
@@ -874,19 +883,21 @@ Proof.
   intros fo t o K H G. unfold op_post. rewrite (apply_replace_eq fo t o K).
   unfold rfc_op, sop_of. cbn [s_op s_path s_val s_from]. rewrite K. cbn [sopk_of]. rewrite <- is_root_spec.
   unfold op_good in G. destruct (p_val o) as [v|]; cbn [option_map].
-  2:{ destruct (is_root (p_path o)); cbn [fst]; [discriminate|].
-      destruct (m_detach t (p_path o)) as [[t' d]|]; cbn [fst]; discriminate. }
+  2:{ destruct (is_root (p_path o)); cbn [fst snd]; [split; [discriminate | auto]|].
+      pose proof (detach_spec (p_path o) t H) as D.
+      destruct (m_detach t (p_path o)) as [[t' d]|]; cbn [fst snd]; (split; [discriminate|]); auto.
+      destruct D as [_ [D2 _]]. exact D2. }
   specialize (G v eq_refl). destruct (is_root (p_path o)) eqn:R.
   - cbn [fst snd]. destruct G as [G1 G2]. repeat split; auto. apply doc_val_good. exact G2.
   - destruct (ty_none_dec t) as [T|T].
-    + rewrite (doc_val_none t T), (none_detach t _ T). cbn [fst]. discriminate.
+    + rewrite (doc_val_none t T), (none_detach t _ T). cbn [fst snd]. split; [discriminate | auto].
     + rewrite (doc_val_good t T). pose proof (detach_spec (p_path o) t H) as D.
       destruct (m_detach t (p_path o)) as [[t1 d]|].
       * destruct D as [D1 [D2 [D3 _]]]. rewrite D1.
         assert (T1 : n_ty t1 <> TNone) by congruence.
         pose proof (poc_spec fo OReplace v t1 (p_path o) eq_refl eq_refl G D2 T1 (not_root_nonempty _ R)) as P.
         destruct (s_add lenient (val t1) (p_path o) (val v)); cbn [option_map]; exact P.
-      * rewrite D. cbn [fst]. discriminate.
+      * rewrite D. cbn [fst snd]. split; [discriminate | auto].
 Qed.
 
 Lemma apply_move_eq : forall fo t o, p_op o = OMove ->
@@ -915,16 +926,16 @@ Proof.
   cbn [c_lenient lenient negb andb].
   destruct (is_root (p_path o)) eqn:R.
   - cbn [fst snd andb]. destruct (p_from o); destruct (doc_val t); repeat split; auto.
-  - cbn [andb]. destruct (p_from o) as [f|]; [|cbn [fst]; discriminate].
+  - cbn [andb]. destruct (p_from o) as [f|]; [|cbn [fst snd]; split; [discriminate | auto]].
     destruct (ty_none_dec t) as [T|T].
-    + rewrite (doc_val_none t T), (none_detach t _ T). cbn [fst]. discriminate.
+    + rewrite (doc_val_none t T), (none_detach t _ T). cbn [fst snd]. split; [discriminate | auto].
     + rewrite (doc_val_good t T). pose proof (detach_spec f t H) as D.
       destruct (m_detach t f) as [[t2 v]|].
       * destruct D as [D1 [D2 [D3 [_ [_ [D6 D7]]]]]]. rewrite D7, D1.
         assert (T2 : n_ty t2 <> TNone) by congruence.
         pose proof (poc_spec fo OMove v t2 (p_path o) eq_refl eq_refl D6 D2 T2 (not_root_nonempty _ R)) as P.
         destruct (s_add lenient (val t2) (p_path o) (val v)); cbn [option_map]; exact P.
-      * destruct (jget lenient (val t) f); [rewrite D|]; cbn [fst]; discriminate.
+      * destruct (jget lenient (val t) f); [rewrite D|]; cbn [fst snd]; split; try discriminate; auto.
 Qed.
 
 Lemma apply_copy_eq : forall fo t o, p_op o = OCopy ->
@@ -953,14 +964,12 @@ Proof.
   cbn [c_lenient lenient].
   destruct (is_root (p_path o)) eqn:R.
   - cbn [fst snd andb]. destruct (p_from o); destruct (doc_val t); repeat split; auto.
-  - cbn [andb]. destruct (p_from o) as [f|]; [|cbn [fst]; discriminate].
+  - cbn [andb]. destruct (p_from o) as [f|]; [|cbn [fst snd]; split; [discriminate | auto]].
     destruct (ty_none_dec t) as [T|T].
     + rewrite (doc_val_none t T). destruct f as [|s r].
       * (* from = root of an absent document *)
-        cbn [m_find]. unfold put_or_create. change (op_eqb OCopy OAddCreate) with false.
-        pose proof (none_put fo OCopy t (p_path o) (clone t) T) as N.
-        destruct (m_put fo OCopy t (p_path o) (clone t)) as [[r n']|]; cbn [fst]; [exact N | discriminate].
-      * rewrite (none_find t (s :: r) T) by discriminate. cbn [fst]. discriminate.
+        cbn [m_find]. apply poc_none; auto.
+      * rewrite (none_find t (s :: r) T) by discriminate. cbn [fst snd]. split; [discriminate | auto].
     + rewrite (doc_val_good t T). pose proof (find_spec f t H) as F.
       destruct (m_find t f) as [v|] eqn:MF.
       * destruct F as [F1 [F2 F3]]. rewrite F1.
@@ -971,7 +980,7 @@ Proof.
         pose proof (poc_spec fo OCopy (clone v) t (p_path o) eq_refl eq_refl G H T (not_root_nonempty _ R)) as P.
         rewrite C2 in P.
         destruct (s_add lenient (val t) (p_path o) (val v)); cbn [option_map]; exact P.
-      * rewrite F. cbn [fst]. discriminate.
+      * rewrite F. cbn [fst snd]. split; [discriminate | auto].
 Qed.
 
 Lemma apply_test_eq : forall fo t o, p_op o = OTest ->
@@ -989,28 +998,28 @@ Lemma op_test : forall fo t o, p_op o = OTest -> inv t -> op_good o -> op_post f
 Proof.
   intros fo t o K H G. unfold op_post. rewrite (apply_test_eq fo t o K).
   unfold rfc_op, sop_of. cbn [s_op s_path s_val s_from]. rewrite K. cbn [sopk_of]. rewrite <- is_root_spec.
-  unfold op_good in G. destruct (p_val o) as [v|]; cbn [option_map]; [|cbn [fst]; discriminate].
+  unfold op_good in G. destruct (p_val o) as [v|]; cbn [option_map]; [|cbn [fst snd]; split; [discriminate | auto]].
   specialize (G v eq_refl).
   destruct (ty_none_dec t) as [T|T].
   - rewrite (doc_val_none t T). destruct (is_root (p_path o)) eqn:R.
     + assert (E : nodes_eq fo t v = false).
       { destruct t as [? ? tt ? ? ?]. simpl in T. subst tt. rewrite nodes_eq_unfold.
         destruct G as [_ G2]. destruct v as [? ? tv ? ? ?]. simpl in *. destruct tv; try reflexivity. contradiction. }
-      rewrite E. cbn [fst]. discriminate.
-    + rewrite (none_find t _ T (not_root_nonempty _ R)). cbn [fst]. discriminate.
+      rewrite E. cbn [fst snd]. split; [discriminate | auto].
+    + rewrite (none_find t _ T (not_root_nonempty _ R)). cbn [fst snd]. split; [discriminate | auto].
   - rewrite (doc_val_good t T).
     assert (X : forall x, good x -> jeq (f_eq fo) (val x) (val v) = nodes_eq fo x v).
     { intros x Gx. symmetry. apply nodes_eq_spec; auto. }
     destruct (is_root (p_path o)) eqn:R.
-    + rewrite (X t (conj H T)). destruct (nodes_eq fo t v); cbn [fst snd]; [|discriminate].
+    + rewrite (X t (conj H T)). destruct (nodes_eq fo t v); cbn [fst snd]; [|split; [discriminate | auto]].
       repeat split; auto. apply doc_val_good. exact T.
     + pose proof (find_spec (p_path o) t H) as F.
       destruct (m_find t (p_path o)) as [x|].
       * destruct F as [F1 [F2 F3]]. rewrite F1.
         rewrite (X x (conj F2 (F3 (not_root_nonempty _ R)))).
-        destruct (nodes_eq fo x v); cbn [fst snd]; [|discriminate].
+        destruct (nodes_eq fo x v); cbn [fst snd]; [|split; [discriminate | auto]].
         repeat split; auto. apply doc_val_good. exact T.
-      * rewrite F. cbn [fst]. discriminate.
+      * rewrite F. cbn [fst snd]. split; [discriminate | auto].
 Qed.
 
 (* the single-operation theorem against the lenient reading, for all six rfc6902 operations *)
@@ -1209,7 +1218,7 @@ Qed.
 Lemma apply_ops_lenient : forall fo l t, ops_ok l -> inv t ->
   match rfc_program lenient (f_eq fo) (doc_val t) (map sop_of l) with
   | Some d' => fst (apply_ops fo t l) = RcOk /\ doc_val (snd (apply_ops fo t l)) = d' /\ inv (snd (apply_ops fo t l))
-  | None => fst (apply_ops fo t l) <> RcOk
+  | None => fst (apply_ops fo t l) <> RcOk /\ inv (snd (apply_ops fo t l))
   end.
 Proof.
   intros fo. induction l as [|o l IH]; intros t HO H.
@@ -1219,7 +1228,8 @@ Proof.
     destruct (rfc_op lenient (f_eq fo) (doc_val t) (sop_of o)) as [d1|].
     + destruct P as [P1 [P2 P3]]. destruct (apply_op fo t o) as [r t1]. cbn [fst snd] in *. subst r d1.
       apply IH; auto.
-    + destruct (apply_op fo t o) as [r t1]. cbn [fst] in P. destruct r; try (cbn [fst]; exact P). contradiction.
+    + destruct (apply_op fo t o) as [r t1]. cbn [fst snd] in P. destruct P as [P1 P2].
+      destruct r; try (cbn [fst snd]; split; [discriminate | exact P2]). exfalso. apply P1. reflexivity.
 Qed.
 
 Lemma rfc_program_strict_lenient : forall feq l d d', Forall no_root_alias l ->
@@ -1245,7 +1255,14 @@ Theorem patch_program_error_reported : forall fo l t,
   ops_ok l -> klidx_inv t ->
   rfc_program lenient (f_eq fo) (doc_val t) (map sop_of l) = None -> fst (apply_ops fo t l) <> RcOk.
 Proof.
-  intros fo l t HO H S. pose proof (apply_ops_lenient fo l t HO H) as P. rewrite S in P. exact P.
+  intros fo l t HO H S. pose proof (apply_ops_lenient fo l t HO H) as P. rewrite S in P. apply P.
+Qed.
+
+(* cached index = position after every rfc6902 operation of a program, whatever the outcome *)
+Theorem klidx_inv_preserved : forall fo l t, ops_ok l -> klidx_inv t -> klidx_inv (snd (apply_ops fo t l)).
+Proof.
+  intros fo l t HO H. pose proof (apply_ops_lenient fo l t HO H) as P.
+  destruct (rfc_program lenient (f_eq fo) (doc_val t) (map sop_of l)); apply P.
 Qed.
 
 Lemma detach_none_find : forall p n, p <> [] -> m_find n p = None -> m_detach n p = None.
